@@ -43,8 +43,8 @@ var targets = []target{
 	},
 	{
 		Prop: "C04", File: "pkg/haproxy/types/maps.go", Func: "overlaps", Lean: "overlaps",
-		Sig:  "(e1 e2 : GoLib.MapEntry) : Bool",
-		Syms: map[string]string{"MatchExact": "GoLib.MatchType.exact", "MatchRegex": "GoLib.MatchType.regex"},
+		Sig:    "(e1 e2 : GoLib.MapEntry) : Bool",
+		Syms:   map[string]string{"MatchExact": "GoLib.MatchType.exact", "MatchRegex": "GoLib.MatchType.regex"},
 		Rename: map[string]string{"match": "mt"},
 	},
 	{
@@ -52,19 +52,19 @@ var targets = []target{
 		Sig:  "(strictHost : Bool) (hostsAdd : List GoLib.HostView) (fx : List GoLib.TrackCall) : List GoLib.TrackCall",
 		Fall: "fx",
 		Syms: map[string]string{
-			"c.haproxy.Global().StrictHost":           "strictHost",
-			"c.haproxy.Hosts().ItemsAdd()":            "hostsAdd",
-			"hatypes.DefaultHost":                     "Facts.c04DefaultHost",
+			"c.haproxy.Global().StrictHost":            "strictHost",
+			"c.haproxy.Hosts().ItemsAdd()":             "hostsAdd",
+			"hatypes.DefaultHost":                      "Facts.c04DefaultHost",
 			"host.FindPath(\"/\", hatypes.MatchBegin)": "(host).rootBegin",
-			"convtypes.ResourceHAHostname":            "\"H\"",
+			"convtypes.ResourceHAHostname":             "\"H\"",
 		},
 		Effects: map[string]string{"c.tracker.TrackNames": "GoLib.trackNames"},
 		Doc:     "ItemsAdd() is a Go map: `hostsAdd` is its content in iteration order;",
 	},
 	{
 		Prop: "C08", File: "pkg/controller/services/cache.go", Recv: "c", Func: "IsValidIngressClass", Lean: "isValidIngressClass",
-		Sig:    "(c : GoLib.CacheView) (ingressClass : Option GoLib.IngressClassView) : Bool",
-		Syms:   map[string]string{"ingressClass.Spec.Controller": "(GoLib.derefClass ingressClass).controller"},
+		Sig:  "(c : GoLib.CacheView) (ingressClass : Option GoLib.IngressClassView) : Bool",
+		Syms: map[string]string{"ingressClass.Spec.Controller": "(GoLib.derefClass ingressClass).controller"},
 	},
 	{
 		Prop: "C08", File: "pkg/controller/services/cache.go", Recv: "c", Func: "IsValidIngress", Lean: "isValidIngress",
@@ -88,5 +88,39 @@ var targets = []target{
 			"asciiSpace[s[end]]":   "(GoLib.lookupTbl Facts.c19AsciiSpaceKeys Facts.c19AsciiSpaceVals (GoLib.byteAt s end'))",
 		},
 		Doc: "strings are byte lists; `asciiSpace` is the table the fact extractor reads from the same file; loops get fuel len(s)+1;",
+	},
+	{
+		Prop: "C14", File: "pkg/controller/reconciler/watchers.go", Func: "appenddedup", Lean: "appenddedup",
+		Sig: "(slice : List String) (s : String) : List String",
+	},
+	{
+		Prop: "C14", File: "pkg/controller/reconciler/watchers.go", Recv: "hdlr", Func: "compose", Lean: "compose",
+		Sig:  "(h : GoLib.HdlrView) (links objects : List String) (ev : String) (obj : GoLib.ObjView) : List String × List String",
+		Fall: "(links, objects)",
+		Syms: map[string]string{
+			"h.name != nil":      "(h).hasName",
+			"h.name(obj)":        "((h).name obj)",
+			"obj.GetName()":      "(obj).name",
+			"obj.GetNamespace()": "(obj).ns",
+			"h.w.ch":             "()",
+			"ch.Links[h.res]":    "links",
+			"ch.Objects":         "objects",
+			"fmt.Sprintf":        "GoLib.sprintfEvResName",
+			"appenddedup":        "appenddedup",
+		},
+		Doc: "`ch.Links[h.res]` (the link list of the handler's resource type) and `ch.Objects` are the explicit state `links`, `objects`;",
+	},
+	{
+		Prop: "C14", File: "pkg/controller/reconciler/watchers.go", Recv: "hdlr", Func: "notify", Lean: "notify",
+		Sig:  "(h : GoLib.HdlrView) (needFullSync : Bool) (fx : List Bool) (event : String) (o : GoLib.ObjView) : Bool × List Bool",
+		Fall: "(needFullSync, fx)",
+		Syms: map[string]string{
+			"h.w.ch.NeedFullSync":      "needFullSync",
+			"rparam{fullsync: h.full}": "(h).full",
+			"h.w.run":                  "false",
+		},
+		Effects: map[string]string{"q.AddRateLimited": "GoLib.enqueue"},
+		Skip:    []string{"h.w.log.Info"},
+		Doc:     "the queue is the log `fx` of enqueued items (the fullsync flag of each `rparam`); logging is off;",
 	},
 }
